@@ -18,6 +18,16 @@ import threading
 import z3
 
 
+class InjectedError(Exception):
+    """An exception that is not a z3.Z3Exception leaving a wrapped body (as BackendError does from _convert)."""
+
+
+def expects_raise(call):
+    if call.get("raise"):
+        return True
+    return bool(call.get("propagate")) and any(expects_raise(k) for k in call.get("kids", ()))
+
+
 class HarnessGone(Exception):
     """A name the harness rebinds no longer exists (exit 2, never a VIOLATION)."""
 
@@ -198,10 +208,16 @@ class Run:
             lt.progress += 1
             try:
                 for kid in call.get("kids", ()):
+                    if call.get("propagate"):
+                        # the kid's error (already a ClaripyZ3Error, or a foreign exception) leaves this wrapped call too
+                        run._wrapped_body(lt, kid)
+                        continue
                     try:
                         run.invoke(lt, kid)
                     except _errors().ClaripyZ3Error:
                         pass
+                if call.get("raise") == "other":
+                    raise InjectedError("injected (not a Z3Exception)")
                 if call.get("raise"):
                     raise z3.Z3Exception("injected")
                 return None
@@ -216,8 +232,8 @@ class Run:
     def invoke(self, lt, call):
         try:
             self._wrapped_body(lt, call)
-        except _errors().ClaripyZ3Error:
-            if not call.get("raise"):
+        except (_errors().ClaripyZ3Error, InjectedError):
+            if not expects_raise(call):
                 raise
 
     def current_logical(self):
